@@ -21,6 +21,40 @@ ID = "C12"
 LEAN_MODULES = ["EzdxfVerif.Props.C12"]
 DRIVER_DEPS = ["EzdxfVerif.Model.Rat3", "EzdxfVerif.Gen.TransformKernels", "EzdxfVerif.Model.Transform", "Drivers.Proto"]
 
+RULE = (
+    "correspondence (request carries the value of the real code, the Lean driver answers agree/DISAGREE; numbers agree when "
+    "|a-b| <= tol*max(1,|a|,|b|), tol 1e-9 (1e-8 for entity streams), errors by class): X1 every regenerated OCSTransform kernel vs "
+    "OCSTransform.from_ocs(old, new, m) on dyadic / Pythagorean matrices and exact (also non-orthonormal) frames; X2 transform_extrusion "
+    "(new extrusion + is_uniform) for extrusions on both sides of 1/64 x similarity/affine/plane-targeted matrices, decision band of the "
+    "uniform test regenerated; X3 Line/Circle/Arc/LWPolyline/Solid.transform control flow (incl. NonUniformScalingError, ZeroDivisionError) "
+    "given the OCS frames and scale_uniform flag of the real OCSTransform; X4 InsertCoordinateSystem.transform (scales, sign decision, "
+    "InsertTransformationError, insert, rotation as direction) and Insert.matrix44 with a block base point; X5 recursive expansion of clean "
+    "nested block references of POINTs (depth <= 4) vs product of the real per-level matrix44s, and level-by-level expansion = path product; "
+    "X6 upright() attribute flips.  non-trivial = non-default frame / non-similar or mirrored matrix / nesting depth > 1; distinct by hash of "
+    "the request.  oracle: own WCS parametrisation before/after on the real code, see module docstring; a failing input is keyed "
+    "<cause>/<api>/<type>/<aspect>/<matrix class>/<hash>, cause derived from the INPUT (e.g. plane-shear, neg-thickness) so that listed "
+    "findings do not hide other failures of the same entity type."
+)
+TRUSTED_BASE = [
+    "py2lean translator + the two AST splits (transform_extrusion after OCS(), InsertCoordinateSystem.transform before from_ocs) in this file",
+    "the harness' own geometry (arbitrary axis algorithm, Rodrigues rotation, bulge -> arc, ellipse parametrisation, curve inclusion test)",
+    "OCS.__init__ (frames are taken from the real OCS objects; their correctness is property C11)",
+    "sqrtA of the Lean driver (exact on rational squares, else relative error < 2^-100); theorems quantify over exact roots",
+]
+ASSUMPTIONS = [
+    "finite doubles, invertible matrices; float rounding bounded by the stated tolerances, not proved",
+    "extrusions within 1e-9 of the 1/64 threshold and matrices within the decision bands of the uniform / orthogonality / span tests are "
+    "regenerated (counted in the distribution)",
+    "HATCH ellipse edge angles are read as ezdxf reads them (real angles, parameter = atan2(sin a / ratio, cos a))",
+]
+OPEN = [
+    "uniform_detected_iff is false on the unchanged tree (C12-F1): counterexample uniform_flag_ignores_angle + uniform_detected_iff_partial",
+    "thickness_vector_law is false for thickness <= 0 (C12-F2/F3): thickness_negative_flips, thickness_zero_raises + thickness_vector_law_partial",
+    "insert_transform_law is false for rotated references (C12-Fa = C15-F1): insert_rotated_counterexample; the general statement is proved as "
+    "the representation theorem insert_matrix_law, its hypotheses are established for the code's scale extraction by example / correspondence only",
+    "not proved: rytz ellipse axis reconstruction, text / MTEXT orientation, DIMENSION / MLINE / HATCH edge internals, atan2 / isclose numerics",
+]
+
 # ================================================================================================ own linear algebra
 # Everything below is written for the harness and does not call ezdxf: vectors are 3-tuples of floats, a matrix is a
 # pair (A, t): A = 3 rows (images of e1, e2, e3), t = translation; a point maps to p.x*A[0] + p.y*A[1] + p.z*A[2] + t
